@@ -350,8 +350,7 @@ CONTRACTS[GP + 'GraphProcessor._get_des_vars@connection-choices'] = dict(
         params=['choice_node'], types={}, returns='Tuple[Ref,List[Ref[DesVar]],Ref,Np1[Int],Ref]', modifies=[], assumed=True, receiver='self',
         ensures=['result[3] == EM(choice_node)', 'len(result[1]) == NV(choice_node)', 'NV(choice_node) >= 0',
                  'implies(not cutoff_mode, len(EM(choice_node)) == n_combs)'])},
-    defs={'ccn': ((), 'self.connection_choice_nodes'),
-          'offs': (('k',), 'ite(k == 0, old(len(des_vars)), 0)')},
+    defs={'ccn': ((), 'self.connection_choice_nodes')},
     loops={
         'for choice_node in self.connection_choice_nodes': dict(index='k', invariant={
             'mask-len': 'len(existence_infeasibility_mask) == n_combs',
@@ -380,3 +379,50 @@ CONTRACTS[GP + 'GraphProcessor._get_des_vars@connection-choices'] = dict(
     no_frame=True,
 )
 CLASSES['GraphProcessor']['connection_choice_nodes'] = 'List[Ref]'
+
+
+def _domain_des_vars_connection(n):
+    """The segment (cut out of the real source) run by CPython on real processors of small corpus graphs; EM / NV are
+    read off a separate call of the real `_encode_connection_choice`."""
+    import os, sys, tempfile
+    here = os.path.dirname(os.path.dirname(os.path.abspath(__file__)))
+    if here not in sys.path:
+        sys.path.insert(0, here)
+    os.environ.setdefault('XDG_CACHE_HOME', tempfile.mkdtemp(prefix='verif_dom_'))
+    from pyvc.replay import segment_callable
+    from bounded import gen, corpus
+    from adsg_core.optimization.graph_processor import GraphProcessor
+    from adsg_core.optimization.hierarchy import SelChoiceEncoderType
+    key = GP + 'GraphProcessor._get_des_vars@connection-choices'
+    seg = segment_callable(key, CONTRACTS[key], os.environ.get('VERIF_REPO', '/repo'))
+    members = [d for d in corpus.corpus(['conn2', 'conn'], 'quick') if d.conn_choices]      # several choices first
+    for d in members[:max(4, n // 12)]:
+        try:
+            b = gen.Built(d)
+            gp = GraphProcessor(b.dsg, encoder_type=SelChoiceEncoderType.COMPLETE)
+            starts = [v[3] for v in gp._conn_choice_data_map.values()]
+            pre = list(gp.all_des_vars[:min(starts)]) if starts else []
+        except Exception:   # noqa: processors that cannot be built are the business of C01 / C10
+            continue
+        memo = {}
+
+        def enc(c, gp=gp, memo=memo):
+            if c not in memo:
+                memo[c] = gp._encode_connection_choice(c)
+            return memo[c]
+        ncomb = gp._hierarchy_analyzer.n_combinations
+        perm = gp._hierarchy_analyzer.influence_matrix.permanent_nodes_incl_choice_nodes
+        env = {'self': gp, 'des_vars': list(pre), 'n_combs': ncomb, 'cutoff_mode': False, 'permanent_nodes': perm,
+               'EM': (lambda c, enc=enc: enc(c)[3]), 'NV': (lambda c, enc=enc: len(enc(c)[1]))}
+        try:
+            if any(isinstance(enc(c)[3], dict) for c in gp.connection_choice_nodes):
+                continue    # dict-shaped existence maps: the other variant
+        except Exception:   # noqa: members whose encoders cannot be built are the business of C01 / C10
+            continue
+        yield (env, (lambda gp=gp, env=env, ncomb=ncomb, perm=perm: seg(self=gp, des_vars=env['des_vars'], n_combs=ncomb, cutoff_mode=False,
+                                                                        permanent_nodes=perm)), {},
+               f'GraphProcessor({d.label})._get_des_vars[connection-choice segment]')
+
+
+DOMAIN = dict(globals().get('DOMAIN', {}))
+DOMAIN[GP + 'GraphProcessor._get_des_vars@connection-choices'] = _domain_des_vars_connection
